@@ -93,6 +93,16 @@ impl<'a> Nevra<'a> {
 
     /// Parse the name, epoch, version, release and arch values and return them as a 5-element tuple
     pub fn parse_values(nevra: &'a str) -> (&'a str, &'a str, &'a str, &'a str, &'a str) {
+        // The name may contain dashes itself, the version and the release can not. So when there
+        // are at least two dashes, the last two of them delimit the version and the release.
+        if let Some((nev, ra)) = nevra.rsplit_once('-') {
+            if let Some((name, ev)) = nev.rsplit_once('-') {
+                let (epoch, version) = ev.split_once(':').unwrap_or(("", ev));
+                let (release, arch) = ra.rsplit_once('.').unwrap_or((ra, ""));
+                return (name, epoch, version, release, arch);
+            }
+        }
+
         let (name, evra) = nevra.split_once('-').unwrap_or((nevra, ""));
         let (epoch, vra) = evra.split_once(':').unwrap_or(("", evra));
         let (version, ra) = vra.split_once('-').unwrap_or((vra, ""));
